@@ -91,6 +91,13 @@ CLAIMS = {
             "Linearizability and the extract_min/max emptiness claims are NOT decided.",
             "static analysis: typestate / value-numbered path tables on enumerated CFG paths + who-may-write tables + belief propagation over the call graph",
             "DESIGN.md §4 C15"),
+    "C16": ("other", "Lock-scope rules over StripedSet/Map and CuckooSet/Map (intrusive and container layers, striping and refinable policies): "
+            "every bucket / probe-set lookup lies inside the lifetime of a scoped cell lock built from the same hash (array) or of a full / "
+            "resize lock; helpers touching buckets unlocked are reached only from such scopes (call-graph propagation to the entry points); the "
+            "hash comes from the operation's own key; the table is re-allocated only inside a resize-lock scope after re-checking the capacity; "
+            "scoped lock objects acquire in the constructor and release in the destructor; refinable acquire() re-reads the resize owner after "
+            "locking and returns with the locks held. Linearizability across resizes and deadlock freedom are NOT decided.",
+            "static analysis: lock-scope typestate on enumerated CFG paths + requirement propagation over the call graph", "DESIGN.md §4 C16"),
     "C17": ("other", "Hash-independent element conservation on every CFG path of the relocation code: CuckooSet::resize and relocate insert "
             "each moved element exactly once (known finding D5: the all-probe-sets-full path of resize drops the element), probe-set positions "
             "are used before anything mutates the probe sets, StripedSet::internal_resize moves every element of every old bucket once into "
